@@ -394,8 +394,16 @@ class BasinProxy:
 
     def __getitem__(self, feat):
         if feat not in self._features:
-            feat_obj = BasinProxyFeature(feat_obj=self.ds[feat],
-                                         basinmap=self.basinmap)
+            if feat == "trace":
+                # dictionary of traces, each of which must be mapped
+                feat_obj = {}
+                for tr in self.ds["trace"].keys():
+                    feat_obj[tr] = BasinProxyFeature(
+                        feat_obj=self.ds["trace"][tr],
+                        basinmap=self.basinmap)
+            else:
+                feat_obj = BasinProxyFeature(feat_obj=self.ds[feat],
+                                             basinmap=self.basinmap)
             self._features[feat] = feat_obj
         return self._features[feat]
 
